@@ -100,7 +100,121 @@ pub fn cases(tier: &str) -> Vec<Value> {
     for chunk in printable.chunks(6) {
         out.push(json!({"engine":"enet","check":"c15","kind":"octets","chars":chunk,"all":thorough}));
     }
+    // histories: what an earlier query (to another route's server) left behind must not decide
+    // where a later query goes.  Nested suffixes on different servers; first an enclosing name is
+    // asked and answered by the shorter route's server (NXDOMAIN with an SOA, NODATA with an SOA, or
+    // an address), then names under the longer route are asked: they go to the longer route's server.
+    for (short, long, enclosing) in [("", "corp.example.com", "example.com"), ("", "corp.example.com", "com"), ("com", "example.com", "com"), ("example.com", "corp.example.com", "example.com"), ("", "example.com", "com")] {
+        for first in ["nxdomain-soa", "nodata-soa", "address"] {
+            for order in [0, 1] {
+                out.push(json!({"engine":"enet","check":"c15","kind":"history","short":short,"long":long,"enclosing":enclosing,"first":first,"long_route_first":order == 1}));
+            }
+        }
+    }
     out
+}
+
+fn run_history(case: &Value) -> CaseResult {
+    let (short, long) = (case["short"].as_str().unwrap_or(""), case["long"].as_str().unwrap_or(""));
+    let long_first = case["long_route_first"].as_bool().unwrap_or(false);
+    // upstream 0 serves the route written first
+    let (r0, r1) = if long_first { (long, short) } else { (short, long) };
+    let yaml = format!("---\ndns-listeners: {{LISTENERS}}\ndns-routes:\n  - domain-suffixes: ['{r0}']\n    type: forward\n    dns-servers: ['{{UP0}}']\n  - domain-suffixes: ['{r1}']\n    type: forward\n    dns-servers: ['{{UP1}}']\n");
+    let up_short = if long_first { 1 } else { 0 };
+    let up_long = 1 - up_short;
+    let spec = RigSpec { listeners: vec!["::1".into()], n_upstreams: 2, yaml };
+    let mut rig = match Rig::start(&spec) {
+        Ok(r) => r,
+        Err(e) => return CaseResult::machinery(e),
+    };
+    let mut res = CaseResult::ok("history");
+    let first = case["first"].as_str().unwrap_or("");
+    let enclosing = case["enclosing"].as_str().unwrap_or("");
+    let mut qn = 0u16;
+    // ask `name`; every upstream that receives it answers (the short route's server as scripted for
+    // the enclosing name, otherwise an address); returns which upstreams were asked
+    let mut ask = |rig: &mut Rig, name: &str, script: &str| -> Result<(Vec<usize>, Option<u16>), String> {
+        qn += 1;
+        let q = rd::query(0x6c00 + qn, &rd::name(name), rd::T_A, 1, true, None);
+        let before: Vec<usize> = rig.upstreams.iter().map(|u| u.tcp_frames_total()).collect();
+        let mut c = TcpClient::connect(Some("::1".parse().unwrap()), rig.listen_addr(0))?;
+        c.conn.send_frame(&rd::encode(&q, false))?;
+        let mut answered = vec![0usize; rig.upstreams.len()];
+        let mut rcode = None;
+        for _ in 0..300 {
+            rig.pump(4);
+            rig.poll_upstreams();
+            for ui in 0..rig.upstreams.len() {
+                let u = &mut rig.upstreams[ui];
+                for ci in 0..u.conns.len() {
+                    while !u.conns[ci].frames_in.is_empty() && answered[ui] < u.tcp_frames_total() - before[ui] {
+                        let f = u.conns[ci].frames_in.last().unwrap().clone();
+                        answered[ui] += 1;
+                        if let Ok((oq, _)) = rd::decode(&f) {
+                            let soa = rd::Rr { name: rd::name(if enclosing.is_empty() { "." } else { "com" }), rtype: rd::T_SOA, class: 1, ttl: 300, rdata: rd::Rdata::Soa(rd::name("ns.invalid"), rd::name("root.invalid"), [1, 2, 3, 4, 300]) };
+                            let addr = rd::Rr { name: oq.question[0].0.clone(), rtype: rd::T_A, class: 1, ttl: 300, rdata: rd::Rdata::Raw(vec![10, 0, 0, ui as u8 + 1]) };
+                            let rep = match script {
+                                "nxdomain-soa" => rd::Msg { id: oq.id, flags: 0x8183, question: oq.question.clone(), answer: vec![], authority: vec![soa], additional: vec![] },
+                                "nodata-soa" => rd::Msg { id: oq.id, flags: 0x8180, question: oq.question.clone(), answer: vec![], authority: vec![soa], additional: vec![] },
+                                _ => rd::Msg { id: oq.id, flags: 0x8180, question: oq.question.clone(), answer: vec![addr], authority: vec![], additional: vec![] },
+                            };
+                            let _ = u.conns[ci].send_frame(&rd::encode(&rep, true));
+                        }
+                    }
+                }
+            }
+            c.poll();
+            if let Some(b) = c.conn.frames_in.first() {
+                rcode = rd::decode(b).ok().map(|(m, _)| m.rcode());
+                break;
+            }
+            if c.conn.eof {
+                break;
+            }
+        }
+        let asked: Vec<usize> = rig.upstreams.iter().enumerate().filter(|(i, u)| u.tcp_frames_total() > before[*i]).map(|(i, _)| i).collect();
+        Ok((asked, rcode))
+    };
+    // 1. the enclosing name, answered by the short route's server as scripted
+    match ask(&mut rig, enclosing, first) {
+        Err(e) => {
+            let _ = rig.stop();
+            return CaseResult::machinery(e);
+        }
+        Ok((asked, _)) => {
+            if asked != vec![up_short] {
+                res.violations.push(Violation::new("upstream-choice", format!("routes ['{short}' -> upstream {up_short}, '{long}' -> upstream {up_long}]: the enclosing name '{enclosing}' went to upstreams {:?}", asked), case.clone()).sig("oracle", "upstream-choice").sig("part", "history"));
+            }
+        }
+    }
+    // 2. names under the long route: its own server must be asked, whatever the first answer was
+    let under: Vec<String> = vec![format!("host.{long}"), long.to_string(), format!("a.b.{long}")];
+    for name in under {
+        match ask(&mut rig, &name, "address") {
+            Err(e) => {
+                let _ = rig.stop();
+                return CaseResult::machinery(e);
+            }
+            Ok((asked, rcode)) => {
+                if asked != vec![up_long] {
+                    res.violations.push(
+                        Violation::new("upstream-choice", format!("routes ['{short}' -> upstream {up_short}, '{long}' -> upstream {up_long}]: after '{enclosing}' was answered ({first}) by upstream {up_short}, the query for '{name}' -- which belongs to the route '{long}' -- went to upstreams {:?} and the client got rcode {:?}", asked, rcode), case.clone())
+                            .sig("oracle", "upstream-choice")
+                            .sig("part", "history"),
+                    );
+                }
+            }
+        }
+    }
+    let ps = rig.stop();
+    if let Some(p) = ps.first() {
+        res.violations.push(Violation::new("panic", format!("service task panicked while routing: {} at {}", p.msg, crate::common::panics::short_loc(&p.loc)), case.clone()).sig("loc", crate::common::panics::short_loc(&p.loc)));
+    }
+    let mut st = serde_json::Map::new();
+    st.insert("queries".into(), json!(4));
+    st.insert("class:history".into(), json!(1));
+    res.stats = Value::Object(st);
+    res
 }
 
 fn run_octets(case: &Value) -> CaseResult {
@@ -224,6 +338,9 @@ fn expected_route(routes: &[Value], name: &str) -> Option<usize> {
 pub fn run_case(case: &Value) -> CaseResult {
     if case["kind"].as_str() == Some("octets") {
         return run_octets(case);
+    }
+    if case["kind"].as_str() == Some("history") {
+        return run_history(case);
     }
     let routes = case["routes"].as_array().cloned().unwrap_or_default();
     // upstream k serves the k-th forward route (in written order)
@@ -382,7 +499,7 @@ pub fn run(tier: &str, replay: Option<Value>) -> ! {
     let classes: Vec<String> = agg.stats_sum.keys().filter_map(|k| k.strip_prefix("class:").map(|s| s.to_string())).collect();
     rep.cov("evaluations", q);
     rep.cov("distinct_nontrivial", agg.executions);
-    rep.cov("rule", "route tables: every subset of <=4 of the 6 suffixes {'',com,example.com,a.example.com,org,Example.COM} (thorough: 7, + b.a.example.com) partitioned into <=3 routes, every forward/forge-nxdomain typing, every route order and every suffix order inside each route; each table is served by a live DnsService with one scripted upstream per forward route and asked 10 names x RD{1,0} over TCP; octet folding: for every printable octet c the table {forward 'x<c>y.fold', forge-nxdomain 'fold'} asked for x<d>y.fold with d in {c, c^0x20, c+-1, upper, lower, c|0x80} (thorough: all 256 octets), forwarded iff d equals c up to the case of an ASCII letter. evaluations = queries; distinct_nontrivial = distinct written tables");
+    rep.cov("rule", "route tables: every subset of <=4 of the 6 suffixes {'',com,example.com,a.example.com,org,Example.COM} (thorough: 7, + b.a.example.com) partitioned into <=3 routes, every forward/forge-nxdomain typing, every route order and every suffix order inside each route; each table is served by a live DnsService with one scripted upstream per forward route and asked 10 names x RD{1,0} over TCP; octet folding: for every printable octet c the table {forward 'x<c>y.fold', forge-nxdomain 'fold'} asked for x<d>y.fold with d in {c, c^0x20, c+-1, upper, lower, c|0x80} (thorough: all 256 octets), forwarded iff d equals c up to the case of an ASCII letter; histories: nested suffixes on two servers, an enclosing name first answered by the shorter route's server (NXDOMAIN+SOA / NODATA+SOA / address), then three names under the longer route, which must reach the longer route's server. evaluations = queries; distinct_nontrivial = distinct written tables");
     rep.cov("exhaustive", true);
     rep.cov("tables", agg.executions);
     rep.cov("outcome_classes", json!(classes));
